@@ -54,35 +54,7 @@ def verify_contract(target, timeout_ms=5000, retry=True):
         if v == "unsat":
             res["status"] = "vacuous"
         t0 = time.time()
-        agg = {}
-        for ob in obs:
-            r, ms, model, reason, _ = ip.prover.check(ob.hyps, ob.goal)
-            solver = "z3-%s" % z3.get_version_string()
-            if r == "unknown" and retry:
-                # retry with a different seed and more time, then with MBQI off (pure E-matching)
-                for k, (seed, tmo, extra) in enumerate(((7, timeout_ms * 2, {}),)):
-                    z3.set_param("smt.random_seed", seed)
-                    for kk, vv in extra.items():
-                        z3.set_param(kk, vv)
-                    try:
-                        r2, ms2, model2, reason2, _ = ip.prover.check(ob.hyps, ob.goal, timeout_ms=tmo)
-                    finally:
-                        z3.set_param("smt.random_seed", 0)
-                        for kk in extra:
-                            z3.set_param(kk, True)
-                    ms += ms2
-                    if r2 != "unknown":
-                        r, model, reason = r2, model2, reason2
-                        break
-            ob.status = {"unsat": "discharged", "sat": "refuted", "unknown": "unknown"}[r]
-            ob.ms = ms
-            rec = {"name": ob.name, "line": ob.line, "status": ob.status, "ms": ms, "solver": solver,
-                   "path": "".join("T" if d else "F" for d in ob.path), "clause": ob.clause}
-            if ob.status == "refuted":
-                rec["model"] = model_summary(model)
-            if ob.status == "unknown":
-                rec["reason"] = reason
-            res["obligations"].append(rec)
+        res["obligations"] = solve_all(ip, obs, timeout_ms, retry)
         res["solve_s"] = round(time.time() - t0, 3)
         if not obs:
             res["status"] = "no-obligations"
@@ -94,6 +66,89 @@ def verify_contract(target, timeout_ms=5000, retry=True):
         res["unsupported"] = "".join(traceback.format_exception_only(type(e), e)).strip()
         res["traceback"] = traceback.format_exc()
     return res
+
+
+def solve_one(ip, ob, timeout_ms, retry):
+    r, ms, model, reason, _ = ip.prover.check(ob.hyps, ob.goal)
+    solver = "z3-%s" % z3.get_version_string()
+    if r == "unknown" and retry:
+        # z3's quantifier instantiation is sensitive to term order: retry with other seeds, then more time
+        for seed, tmo in ((1, timeout_ms), (2, timeout_ms), (3, timeout_ms * 3)):
+            z3.set_param("smt.random_seed", seed)
+            try:
+                r2, ms2, model2, reason2, _ = ip.prover.check(ob.hyps, ob.goal, timeout_ms=tmo)
+            finally:
+                z3.set_param("smt.random_seed", 0)
+            ms += ms2
+            if r2 != "unknown":
+                r, model, reason = r2, model2, reason2
+                break
+    status = {"unsat": "discharged", "sat": "refuted", "unknown": "unknown"}[r]
+    rec = {"name": ob.name, "line": ob.line, "status": status, "ms": ms, "solver": solver,
+           "path": "".join("T" if d else "F" for d in ob.path), "clause": ob.clause}
+    if status == "refuted":
+        rec["model"] = model_summary(model)
+    if status == "unknown":
+        rec["reason"] = reason
+    return rec
+
+
+def solve_all(ip, obs, timeout_ms, retry, nproc=None):
+    """Discharge obligations; identical VCs (same hypotheses and goal terms) are solved once.
+    Large batches are split over forked workers (z3 terms are shared copy-on-write)."""
+    import json
+    import os
+    keys = []
+    uniq = {}
+    for ob in obs:
+        k = (tuple(h.get_id() for h in ob.hyps), ob.goal.get_id())
+        keys.append(k)
+        uniq.setdefault(k, ob)
+    todo = list(uniq.items())
+    if nproc is None:
+        nproc = int(os.environ.get("PYVC_SUBPROCS", "4"))
+    solved = {}
+    if len(todo) < 24 or nproc <= 1:
+        for k, ob in todo:
+            solved[k] = solve_one(ip, ob, timeout_ms, retry)
+    else:
+        pipes = []
+        for w in range(nproc):
+            rfd, wfd = os.pipe()
+            pid = os.fork()
+            if pid == 0:
+                os.close(rfd)
+                out = []
+                try:
+                    for idx, (k, ob) in enumerate(todo):
+                        if idx % nproc == w:
+                            out.append((idx, solve_one(ip, ob, timeout_ms, retry)))
+                    data = json.dumps(out).encode()
+                except BaseException as e:  # noqa
+                    data = json.dumps({"error": repr(e)}).encode()
+                with os.fdopen(wfd, "wb") as f:
+                    f.write(data)
+                os._exit(0)
+            os.close(wfd)
+            pipes.append((pid, rfd))
+        for pid, rfd in pipes:
+            with os.fdopen(rfd, "rb") as f:
+                data = json.loads(f.read().decode() or "[]")
+            os.waitpid(pid, 0)
+            if isinstance(data, dict):
+                raise RuntimeError("solver worker failed: %s" % data.get("error"))
+            for idx, rec in data:
+                solved[todo[idx][0]] = rec
+    out = []
+    for ob, k in zip(obs, keys):
+        rec = dict(solved[k])
+        rec["name"], rec["line"], rec["clause"] = ob.name, ob.line, ob.clause
+        rec["path"] = "".join("T" if d else "F" for d in ob.path)
+        if uniq[k] is not ob:
+            rec["ms"] = 0
+            rec["shared_with"] = "".join("T" if d else "F" for d in uniq[k].path)
+        out.append(rec)
+    return out
 
 
 def clause_key(name):
